@@ -269,10 +269,12 @@ theorem pushScalar_takeRest (ext : Ext) : ∀ (b : B) (x : SVal) (b' : B), pushS
     · split at h
       · obtain ⟨idx', h1, h2⟩ := (bind_ok _ _ _).1 h
         cases h2
+        rw [ctx_eq_ok] at h1
         simp [takeRest, pushScalar_takeRest ext idx _ idx' h1]
       · obtain ⟨vals', h1, h2⟩ := (bind_ok _ _ _).1 h
         obtain ⟨idx', h3, h4⟩ := (bind_ok _ _ _).1 h2
         cases h4
+        rw [ctx_eq_ok] at h1 h3
         simp [takeRest, pushScalar_takeRest ext idx _ idx' h3, pushScalar_takeRest ext vals _ vals' h1]
     · simp [notSupported, fail] at h
   | .list _ _ _ _ _ _, x, b', h => by simp [pushScalar, notSupported, fail] at h
